@@ -2,6 +2,9 @@
    - never reads outside the buffer and never forms a pointer above end  (no Fault),
    - terminates: the fuel its callers supply is always enough            (no OutOfFuel),
    - returns an offset in [0, length buf].
+   This is index safety, termination and range only: the model has no machine stack, so the
+   stack consumed by the C recursion skip_value <-> skip_array / skip_object (one frame per
+   nesting level, no depth limit: known finding F11) is outside these theorems.
    The proof is parametric in the tables taken from the C text; the only thing it needs from
    them is that every row (a, text, n, adv) of skip_literal has n <= a, adv <= a and
    n <= strlen(text) + 1  (checked by computation on the regenerated rows). *)
